@@ -103,7 +103,22 @@ pub fn check_decode(out: &mut Out, prop: &str, b: &[u8], origin: &str) -> bool {
             out.obs("rejected_by_both", 1);
             false
         }
-        (Ok(_), Err(e)) => {
+        (Ok(m), Err(e)) => {
+            if prop == "C06" && m.num_fields() > 0 && b.len() >= 4 {
+                // accepted although the reference refuses it: C06's clause about the values holds
+                // for every accepted message, judged against the input's own count word
+                let n = u32::from_le_bytes([b[0], b[1], b[2], b[3]]) as usize;
+                let header = if n <= 1 { 8 } else { n.saturating_mul(8) };
+                let cat: Vec<u8> = m.values().iter().flat_map(|v| v.iter().cloned()).collect();
+                out.obs("accepted_only_by_the_implementation", 1);
+                if header > b.len() || cat != b[header..] {
+                    out.violation(
+                        &format!("C06 values differ-from-input origin={}", origin),
+                        &format!("values of accepted message {} ({} fields for a count word of {}) are not the input bytes after the header", short(b), m.num_fields(), n),
+                        replay_bytes("decode", b, json!({"origin": origin})),
+                    );
+                }
+            }
             if prop == "C05" {
                 out.violation(
                     &format!("C05 accepts-what-reference-rejects ref={:?}", e),
